@@ -14,7 +14,7 @@ claim('C03', 'exploration', 'bounded-exhaustive literal enumeration against a re
       'Trusts: the 24 representatives stand for their byte classes (other bytes of a class are only sampled); bodies the statement leaves open (NUL escapes, unterminated ${) are executed but not judged.')
 
 claim('C09', 'exploration', 'bounded-exhaustive call-sequence enumeration checked against an executable reference store after every call (history + model monitor, ASan+UBSan build)',
-      'All call sequences to the depth bound over the call alphabet (93 core calls enumerated to depth 3; about 60 more - simple options, odd / empty / long titles, NULL and long strings, far indices, self-owned titles - to depth 2 and sampled at depth 3) (every setter family, list set/append, bulk set good/bad, section add/remove by index/title/path, '
+      'All call sequences to the depth bound over the call alphabet (84 core calls enumerated to depth 3; about 60 more - simple options, odd / empty / long titles, NULL and long strings, far indices, self-owned titles - to depth 2 and sampled at depth 3) (every setter family, list set/append, bulk set good/bad, section add/remove by index/title/path, '
       'wrong-type / bad-index / unknown-name calls) from the initial and five parsed states (one with 40 list elements and 42 sections, one with 1022 list elements) run against the real library; after every call the return value and the whole '
       'tree are compared with a 150-line abstract store. Order-dependent interactions (first append on pristine defaults, remove then add) need sequence enumeration, which is this level.',
       'Trusts: the abstract store (model_store.py) as the reading of the statement; unspecified calls (index gaps, setmulti of several values on a scalar, addtsec on untitled sections) end the judged prefix.')
